@@ -21,11 +21,27 @@
   * `int16_t env_delta = trunc(delta*256)` / `int16_t env_initial = counter*256` with a value
     outside int16 (e.g. `-127>127:1`): modelled as what g++/x86-64 emits (convert to int32,
     keep the low 16 bits) = `i16`; flagged by the spec (the node cannot be represented).
-  * `add_ins_fm_2op` on a base entry shorter than 30 bytes (a PSG envelope): the C++ indexes
-    `fm_data[i]` past `size()` but inside the 30-byte buffer the vector already owned, so the
-    writes are invisible; modelled as "only indices < size are modified".
+  No longer undefined (repository fixes followed by this model):
+  * `add_instrument` on an empty tag (`@1` with no type) is an InputError (7061cba);
+  * `add_ins_fm_2op` only accepts a base whose `ins_type` is `INS_FM` (85bdeee) — the base entry
+    is then always a 30-byte FM image (`Proofs/MdsBase: FmInv`, theorem `C11_fm_base_inv`), so the former out-of-size
+    indexing `fm_data[27]`/`[29]` of a PSG envelope no longer exists (`fm2opBytes` is still
+    written with `mapIdx`, which on a 30-byte image is exactly the three assignments);
+  * the FM transpose byte is computed in `unsigned long` (a2025de): `u8 ((v + 24) * 2)` for every
+    `long` value `v`, `strtol` saturation included;
+  * `add_pitch_vibrato` doubles the rate in `long long` (584f89a); the product is rendered with
+    `%lld` and read back by `add_pitch_node` into an `int` (`i32`, implementation-defined
+    conversion, modular on g++);
+  * `add_pitch_node` throws InputError as soon as `env_data` holds more than 256 nodes (c469126):
+    `PErr.tooLong`; the check sits after the `push_back`s and after the `invalid_argument` test
+    of the same iteration, and is modelled in that order;
+  * a loop position above 255 (256 nodes, then the mark) is an InputError in both end commands
+    (3ecca73): `addPitch` tests it before `pitchFinish` / `pitchFinishExt`, which therefore only
+    ever see `lp ≤ 255` — the hypothesis `lp < 256` of `C11_pitch_decode_compact/_extended`.
+  Narrowings of `strtol` results: `int length` / `int vibrato_rate` = `i32`; `unsigned default_len`
+  = `% 2^32`; `uint8_t` = `u8`.  `strtol` saturates at `LONG_MIN`/`LONG_MAX` (`clampLong`).
   Not modelled: `pcm` instruments (Wave_Bank, property C14) → `Err.unsupported`;
-  `strtod` beyond `[-]digits[.digits]` (no exponent / hex / inf / nan); `strtol` overflow.
+  `strtod` beyond `[-]digits[.digits]` (no exponent / hex / inf / nan).
 -/
 import Ctrmml.Generated.Tables
 namespace Ctrmml.MdsData
@@ -34,6 +50,11 @@ abbrev NBytes := List Nat
 
 def u8 (x : Int) : Nat := (x % 256).toNat
 def i16 (x : Int) : Int := (x + 32768) % 65536 - 32768
+/-- `long` → `int` (g++: modular) -/
+def i32 (x : Int) : Int := (x + 2147483648) % 4294967296 - 2147483648
+/-- `strtol` saturates at `LONG_MIN` / `LONG_MAX` (LP64) -/
+def clampLong (v : Int) : Int :=
+  if v > 9223372036854775807 then 9223372036854775807 else if v < -9223372036854775808 then -9223372036854775808 else v
 
 /-! ## exact rationals (instance `Arith.rat`) -/
 structure Q where
@@ -153,14 +174,14 @@ def takeDigits : List Char → Nat → Nat → Nat × Nat × List Char
   | [], acc, cnt => (acc, cnt, [])
 
 /-- `strtol(s, &end, 10)` on a token without leading blanks: optional sign, digits; no digits
-⇒ value 0 and `end = s`. -/
+⇒ value 0 and `end = s`; a value outside `long` saturates (`end` still behind the digits). -/
 def strtol (s : List Char) : Int × List Char :=
   let (neg, body) := match s with
     | '-' :: r => (true, r)
     | '+' :: r => (false, r)
     | _ => (false, s)
   let (v, cnt, rest) := takeDigits body 0 0
-  if cnt = 0 then (0, s) else ((if neg then -(v : Int) else v), rest)
+  if cnt = 0 then (0, s) else (clampLong (if neg then -(v : Int) else v), rest)
 
 /-- `strtod(s, &end)` restricted to `[+-]digits[.digits]`. -/
 def strtod {α} (A : Arith α) (s : List Char) : α × List Char :=
@@ -248,8 +269,8 @@ def addInsFm4op (st : State) (id : Nat) (tag : List String) : Except Err State :
 /-- slot `i` → index of its multiplier in the 2op tag (1,3,2,4) -/
 def mulIdx (i : Nat) : Nat := 1 + (i % 2) * 2 + (i / 2) % 2
 
-/-- the register image built by `add_ins_fm_2op` from the base image and the 6 tag bytes.
-Indices ≥ base.length are not visible (see header). -/
+/-- the register image built by `add_ins_fm_2op` from the base image and the 6 tag bytes
+(the base is a 30-byte FM image: `addInsFm2op` checks the type of the referenced instrument). -/
 def fm2opBytes (base : NBytes) (td : List Nat) : NBytes :=
   let b1 := base.mapIdx fun j x => if j < 4 then (x / 16) * 16 + nth td (mulIdx j) % 16 else x
   let b2 := b1.mapIdx fun j x => if j = 27 then nth b1 26 else x
@@ -258,7 +279,10 @@ def fm2opBytes (base : NBytes) (td : List Nat) : NBytes :=
 def addInsFm2op (st : State) (id : Nat) (tag : List String) : Except Err State :=
   if tag.length < 6 then .error (.input "not enough parameters for 2op fm instrument") else
   let td := (tag.take 6).map fun t => u8 (tokVal t)
-  let missing : Except Err State := .error (.input "2op ins is referencing instrument which does not exist")
+  let missing : Except Err State :=
+    .error (.input s!"2op ins @{id} is referencing instrument @{nth td 0} which does not exist\n")
+  -- `ins_type.at(ins_id) != INS_FM` (missing or another type), then `envelope_map.at`, `data_bank.at`
+  if mget st.tyMap (nth td 0) != some (Tables.mdsdrv_INS_FM : Int) then missing else
   match mget st.envMap (nth td 0) with
   | none => missing
   | some bi =>
@@ -391,21 +415,34 @@ def chunkDelta {α} (A : Arith α) (target counter : α) (length : Int) : Int :=
 
 def clamp8 (d : Int) : Int := if d > 127 then 127 else if d < -128 then -128 else d
 
-/-- the loop of `add_pitch_node` as the list of its iterations.
-`none` = `std::invalid_argument("add_pitch_node")` (compact form, extended allowed, step does
-not fit a signed byte). -/
+inductive PErr
+  | input             -- InputError "undefined envelope value"
+  | invalidArgument   -- std::invalid_argument("add_pitch_node"): retried in the extended form
+  | tooLong           -- InputError "pitch envelope is too long (more than 256 nodes)"
+deriving Repr, DecidableEq
+
+/-- bytes per node: `(extend ? 6u : 4u)` -/
+def nodeSize (extend : Bool) : Nat := if extend then Tables.mdsdrv_pitch_node_size_ext else Tables.mdsdrv_pitch_node_size
+
+/-- the loop of `add_pitch_node` as the list of its iterations; `size` = `env_data->size()` at
+the top of the iteration.
+`invalidArgument` = `std::invalid_argument("add_pitch_node")` (compact form, extended allowed,
+step does not fit a signed byte), thrown before the node is pushed;
+`tooLong` = the InputError thrown after the push when `env_data` then holds more than
+`(extend ? 6u : 4u) * 256` bytes. -/
 def nodeChunks {α} (A : Arith α) (useExt extend : Bool) (target : α) :
-    Nat → Int → α → Option (List RawChunk)
-  | 0, _, _ => some []
-  | fuel + 1, length, counter =>
-    if length ≤ 0 then some [] else
+    Nat → Nat → Int → α → Except PErr (List RawChunk)
+  | 0, _, _, _ => .ok []
+  | fuel + 1, size, length, counter =>
+    if length ≤ 0 then .ok [] else
     let envLen : Int := if length > 255 then 255 else length
     let envInitial := chunkStart A counter
     let envDelta := chunkDelta A target counter length
     let d := if extend then envDelta else if !useExt then clamp8 envDelta else envDelta
-    if !extend && useExt && (envDelta > 127 || envDelta < -128) then none
+    if !extend && useExt && (envDelta > 127 || envDelta < -128) then .error .invalidArgument
+    else if size + nodeSize extend > nodeSize extend * Tables.mdsdrv_pitch_node_max then .error .tooLong
     else
-      (nodeChunks A useExt extend target fuel (length - envLen)
+      (nodeChunks A useExt extend target fuel (size + nodeSize extend) (length - envLen)
         (A.add counter (A.ofInt (Int.tdiv (d * envLen) 256)))).map (⟨envInitial, d, envLen⟩ :: ·)
 
 /-- the `push_back`s of one iteration -/
@@ -427,22 +464,24 @@ inductive PItem (α : Type)
   | vib (base depth : α) (rate : Int)
   | loop
 
-/-- the iterations of `add_pitch_node(initial>target:explicit)` -/
-def nodeOf {α} (A : Arith α) (useExt extend : Bool) (initial target : α) (explicit : Option Int) : Option (List RawChunk) :=
+/-- the iterations of `add_pitch_node(initial>target:explicit)` on an `env_data` of `size` bytes -/
+def nodeOf {α} (A : Arith α) (useExt extend : Bool) (size : Nat) (initial target : α) (explicit : Option Int) :
+    Except PErr (List RawChunk) :=
   let length := pitchLength A initial target explicit
-  nodeChunks A useExt extend target length.toNat length initial
+  nodeChunks A useExt extend target length.toNat size length initial
 
 def pitchNodeVals {α} (A : Arith α) (useExt extend : Bool) (initial target : α) (explicit : Option Int)
-    (env : NBytes) : Option NBytes :=
-  (nodeOf A useExt extend initial target explicit).map fun cs => cs.foldl (pushChunk extend) env
+    (env : NBytes) : Except PErr NBytes :=
+  (nodeOf A useExt extend env.length initial target explicit).map fun cs => cs.foldl (pushChunk extend) env
 
 /-- the three nodes of `add_pitch_vibrato`: they go through `stringf("%f>%f:%d")` and back through
-`strtod`/`strtol`, i.e. through `fmt6`; `depth` is already `depth/2 + base` -/
+`strtod`/`strtol`, i.e. through `fmt6`; `depth` is already `depth/2 + base`.  The doubled rate is
+`(long long)vibrato_rate*2` printed with `%lld` and read back into `int length` (`i32`). -/
 def vibNodes {α} (A : Arith α) (base depth : α) (rate : Int) : List (α × α × Option Int) :=
   let fb := A.fmt6 base
   let fd := A.fmt6 depth
   let fnd := A.fmt6 (A.neg depth)
-  [(fb, fd, some rate), (fd, fnd, some (rate * 2)), (fnd, fb, some rate)]
+  [(fb, fd, some rate), (fd, fnd, some (i32 (rate * 2))), (fnd, fb, some rate)]
 
 /-- parsing of one token; `none` = "undefined envelope value" -/
 def pitchParse {α} (A : Arith α) (tok : String) : Option (PItem α) :=
@@ -456,7 +495,7 @@ def pitchParse {α} (A : Arith α) (tok : String) : Option (PItem α) :=
         | '>' :: r => if r.isEmpty then (initial, r) else strtod A r
         | _ => (initial, s)
       let explicit := match s with
-        | ':' :: r => if r.isEmpty then none else some (strtol r).1
+        | ':' :: r => if r.isEmpty then none else some (i32 (strtol r).1)   -- `int length = strtol(…)`
         | _ => none
       some (.node initial target explicit)
     else if c == 'V' then
@@ -469,18 +508,15 @@ def pitchParse {α} (A : Arith α) (tok : String) : Option (PItem α) :=
         | ':' :: r => if r.isEmpty then (A.half, r) else let (d, s') := strtod A r; (A.halve d, s')
         | _ => (A.half, s)
       let rate : Int := match s with
-        | ':' :: r => if r.isEmpty then 5 else (strtol r).1
+        | ':' :: r => if r.isEmpty then 5 else i32 (strtol r).1   -- `int vibrato_rate = strtol(…)`
         | _ => 5
       some (.vib base (A.add depth base) rate)
     else none
   | [] => none
 
-inductive PErr | input | invalidArgument
-deriving Repr, DecidableEq
-
-/-- one parsed item applied to `(env_data, loop_pos)`; `none` = `std::invalid_argument` -/
-def pitchItem {α} (A : Arith α) (useExt extend : Bool) (st : NBytes × Int) : PItem α → Option (NBytes × Int)
-  | .loop => some (st.1, ((st.1.length / (if extend then 6 else 4) : Nat) : Int))
+/-- one parsed item applied to `(env_data, loop_pos)` -/
+def pitchItem {α} (A : Arith α) (useExt extend : Bool) (st : NBytes × Int) : PItem α → Except PErr (NBytes × Int)
+  | .loop => .ok (st.1, ((st.1.length / (if extend then 6 else 4) : Nat) : Int))
   | .node i t e => (pitchNodeVals A useExt extend i t e st.1).map fun env => (env, st.2)
   | .vib b d r =>
     ((vibNodes A b d r).foldlM (fun env n => pitchNodeVals A useExt extend n.1 n.2.1 n.2.2 env) st.1).map
@@ -496,8 +532,8 @@ def pitchTokens {α} (A : Arith α) (useExt extend : Bool) :
     | none => .error .input
     | some it =>
       match pitchItem A useExt extend (env, lp) it with
-      | none => .error .invalidArgument
-      | some (env, lp) => pitchTokens A useExt extend rest env lp
+      | .error e => .error e
+      | .ok (env, lp) => pitchTokens A useExt extend rest env lp
 
 /-- end command of the compact form -/
 def pitchFinish (env : NBytes) (lp : Int) : NBytes :=
@@ -516,13 +552,20 @@ def addPitch {α} (A : Arith α) (st : State) (id : Nat) (tag : List String) : E
     | .ok (st, idx) =>
       .ok { st with pitchMap := mset st.pitchMap id idx,
                     pitchExt := if ext && !st.pitchExt.contains id then st.pitchExt ++ [id] else st.pitchExt }
+  -- `if(loop_pos > 255) throw InputError(…)` in the loop branch of the end command (both forms)
+  let loopErr : Except Err State :=
+    .error (.input (Tables.mdsdrv_msg_pitch_loop.1 ++ toString id ++ Tables.mdsdrv_msg_pitch_loop.2))
   match pitchTokens A st.useExt false tag [] (-1) with
   | .ok (env, lp) =>
-    if lp == -1 && env.isEmpty then .error (.input "pitch envelope has no nodes") else store st (pitchFinish env lp) false
+    if lp == -1 && env.isEmpty then .error (.input "pitch envelope has no nodes")
+    else if lp > (Tables.mdsdrv_pitch_loop_max : Int) then loopErr
+    else store st (pitchFinish env lp) false
   | .error .input => .error (.input "undefined envelope value")
+  | .error .tooLong => .error (.input Tables.mdsdrv_msg_pitch_too_long)
   | .error .invalidArgument =>
     match pitchTokens A st.useExt true tag [] (-1) with
-    | .ok (env, lp) => store st (pitchFinishExt env lp) true
+    | .ok (env, lp) => if lp > (Tables.mdsdrv_pitch_loop_max : Int) then loopErr else store st (pitchFinishExt env lp) true
+    | .error .tooLong => .error (.input Tables.mdsdrv_msg_pitch_too_long)
     | .error _ => .error (.input "undefined envelope value")
 
 /-! ## read_song -/
@@ -530,7 +573,7 @@ def lower (s : String) : String := String.ofList (s.toList.map Char.toLower)
 
 def addInstrument {α} (A : Arith α) (st : State) (id : Nat) (tag : List String) : Except Err State :=
   match tag with
-  | [] => .error .unsupported   -- `*it++` on an empty tag: not reachable from MML (the key line has a type)
+  | [] => .error (.input (Tables.mdsdrv_msg_no_ins_type.1 ++ toString id ++ Tables.mdsdrv_msg_no_ins_type.2))   -- `tag.empty()`
   | ty :: rest =>
     let ty := lower ty
     -- after a successful add, `dump_data(id, envelope_map[id])` default-creates the entry (0) when
